@@ -171,14 +171,15 @@ def h_set(x, e, p, site):
     for p1, vs in x.ev_seq(list(e.args), p):
         if isinstance(vs, Exc):
             yield p1, vs; continue
-        v = vs[0]
-        if v.sort == 'set': yield p1, v
-        elif v.sort in ('tuple', 'litlist') and all(i.sort == 'str' for i in v.x):
-            t = EMPTY
-            for i in v.x: t = z3.Store(t, i.t, True)
-            yield p1, SetV(t)
-        elif v.sort == 'image': yield p1, SetV(as_set(v))
-        else: raise Unsupported(site + ' set(' + v.sort + ')')
+        for p2, v in x.narrow(vs[0], p1):
+            if v.sort == 'set': yield p2, v
+            elif v.sort == 'none': yield p2, Exc('TypeError', site)
+            elif v.sort in ('tuple', 'litlist') and all(i.sort == 'str' for i in v.x):
+                t = EMPTY
+                for i in v.x: t = z3.Store(t, i.t, True)
+                yield p2, SetV(t)
+            elif v.sort == 'image': yield p2, SetV(as_set(v))
+            else: raise Unsupported(site + ' set(' + v.sort + ')')
 
 
 def as_set(v):
